@@ -677,7 +677,7 @@ func (st *state) plan(pk *packages.Package, x *fresh, id *ast.Ident, src func(*t
 		break
 	}
 	if ci < 0 {
-		return nil, nil, fmt.Errorf("used as a value at %s", fset.Position(id.Pos()))
+		return st.planValue(pk, x, id, path, file, src)
 	}
 	call := path[ci].(*ast.CallExpr)
 	if call.Ellipsis.IsValid() {
@@ -891,85 +891,14 @@ func (st *state) plan(pk *packages.Package, x *fresh, id *ast.Ident, src func(*t
 	n := st.counter
 	pfx := fmt.Sprintf("_inl%d_", n)
 	label := fmt.Sprintf("_inl%d", n)
-	callerScope := pk.Types.Scope().Innermost(call.Pos())
-	if callerScope == nil {
-		return nil, nil, fmt.Errorf("no scope at %s", where)
+	sc, serr := newSite(pk, file, call.Pos())
+	if serr != nil {
+		return nil, nil, serr
 	}
-	needImport := map[string]string{} // path -> local name to add to the caller's file
-	// local import names of the caller's file
-	callerImp := map[string]string{}
-	for _, is := range file.Imports {
-		var pn *types.PkgName
-		if is.Name != nil {
-			pn, _ = info.Defs[is.Name].(*types.PkgName)
-		} else {
-			pn, _ = info.Implicits[is].(*types.PkgName)
-		}
-		if pn != nil && pn.Name() != "_" && pn.Name() != "." {
-			callerImp[pn.Imported().Path()] = pn.Name()
-		}
-	}
-	var nameErr error
-	importName := func(p *types.Package) string {
-		if p == pk.Types {
-			return ""
-		}
-		if nm, ok := callerImp[p.Path()]; ok {
-			if o, ok := lookupAt(callerScope, nm, call.Pos()).(*types.PkgName); !ok || o.Imported().Path() != p.Path() {
-				nameErr = fmt.Errorf("import name %s is shadowed at %s", nm, where)
-			}
-			return nm
-		}
-		if nm, ok := needImport[p.Path()]; ok {
-			return nm
-		}
-		nm := p.Name()
-		if lookupAt(callerScope, nm, call.Pos()) != nil {
-			nameErr = fmt.Errorf("cannot import %s as %s into the caller's file at %s", p.Path(), nm, where)
-		}
-		needImport[p.Path()] = nm
-		return nm
-	}
-	typeStr := func(t types.Type) string {
-		// same-package type names must not be shadowed at the call site
-		var walk func(t types.Type, depth int)
-		walk = func(t types.Type, depth int) {
-			if depth > 6 {
-				return
-			}
-			switch u := t.(type) {
-			case *types.Named:
-				if o := u.Obj(); o.Pkg() == pk.Types {
-					if lookupAt(callerScope, o.Name(), call.Pos()) != types.Object(o) {
-						nameErr = fmt.Errorf("type %s is shadowed at %s", o.Name(), where)
-					}
-				}
-				for i := 0; i < u.TypeArgs().Len(); i++ {
-					walk(u.TypeArgs().At(i), depth+1)
-				}
-			case *types.Pointer:
-				walk(u.Elem(), depth+1)
-			case *types.Slice:
-				walk(u.Elem(), depth+1)
-			case *types.Array:
-				walk(u.Elem(), depth+1)
-			case *types.Map:
-				walk(u.Key(), depth+1)
-				walk(u.Elem(), depth+1)
-			case *types.Chan:
-				walk(u.Elem(), depth+1)
-			case *types.Signature:
-				for i := 0; i < u.Params().Len(); i++ {
-					walk(u.Params().At(i).Type(), depth+1)
-				}
-				for i := 0; i < u.Results().Len(); i++ {
-					walk(u.Results().At(i).Type(), depth+1)
-				}
-			}
-		}
-		walk(t, 0)
-		return oneLine([]byte(types.TypeString(t, importName)))
-	}
+	callerScope := sc.scope
+	needImport := sc.needImport
+	importName := sc.importName
+	typeStr := sc.typeStr
 	cname, cbytes, err := src(fset, call.Pos())
 	if err != nil {
 		return nil, nil, err
@@ -1055,8 +984,8 @@ func (st *state) plan(pk *packages.Package, x *fresh, id *ast.Ident, src func(*t
 			resObj[rv] = t
 		}
 	}
-	if nameErr != nil {
-		return nil, nil, nameErr
+	if sc.err != nil {
+		return nil, nil, sc.err
 	}
 	// body text with returns, result names and import names rewritten
 	_, hbytes, err := src(fset, x.decl.Pos())
@@ -1147,8 +1076,8 @@ func (st *state) plan(pk *packages.Package, x *fresh, id *ast.Ident, src func(*t
 				switch ob := o.(type) {
 				case *types.PkgName:
 					nm := importName(ob.Imported())
-					if nameErr != nil {
-						bodyErr = nameErr
+					if sc.err != nil {
+						bodyErr = sc.err
 						return false
 					}
 					if nm != e.Name {
@@ -1220,6 +1149,296 @@ func (st *state) plan(pk *packages.Package, x *fresh, id *ast.Ident, src func(*t
 	}
 	desc := fmt.Sprintf("%s -> %s (%s:%d)", x.key, callerName, relFile(st.dir, where.Filename), where.Line)
 	return &plan{eds: eds, desc: desc}, stmt, nil
+}
+
+// planValue handles a helper used as a value (a method value "x.h" or a function value "h", e.g. a closure
+// that was turned into a named method): the use becomes a function literal with the helper's signature and
+// body. A method value binds its receiver when it is evaluated; the literal refers to the receiver variable
+// instead, which is the same provided that variable is a plain identifier that is never re-assigned and whose
+// address is never taken in the enclosing function.
+func (st *state) planValue(pk *packages.Package, x *fresh, id *ast.Ident, path []ast.Node, file *ast.File, src func(*token.FileSet, token.Pos) (string, []byte, error)) (*plan, ast.Stmt, error) {
+	info, fset := pk.TypesInfo, pk.Fset
+	where := fset.Position(id.Pos())
+	var use ast.Expr = id
+	recvBind := ""
+	sig := x.obj.Type().(*types.Signature)
+	if sig.Recv() != nil {
+		if len(path) < 2 {
+			return nil, nil, fmt.Errorf("used as a value at %s", where)
+		}
+		sel, ok := path[len(path)-2].(*ast.SelectorExpr)
+		if !ok || sel.Sel != id {
+			return nil, nil, fmt.Errorf("used as a value at %s", where)
+		}
+		sn := info.Selections[sel]
+		if sn == nil || sn.Kind() != types.MethodVal || len(sn.Index()) != 1 {
+			return nil, nil, fmt.Errorf("method expression or promoted method used as a value at %s", where)
+		}
+		rid, ok := unparen(sel.X).(*ast.Ident)
+		if !ok {
+			return nil, nil, fmt.Errorf("method value of a compound receiver at %s", where)
+		}
+		robj, _ := info.Uses[rid].(*types.Var)
+		if robj == nil || robj.Parent() == pk.Types.Scope() {
+			return nil, nil, fmt.Errorf("method value of a package-level receiver at %s", where)
+		}
+		_, rp := sig.Recv().Type().(*types.Pointer)
+		_, xp := info.TypeOf(sel.X).(*types.Pointer)
+		if rp != xp {
+			return nil, nil, fmt.Errorf("method value with implicit & or * at %s", where)
+		}
+		// the receiver variable must be assigned once (its declaration) and never have its address taken
+		var encl ast.Node
+		for i := len(path) - 1; i >= 0; i-- {
+			if fd, ok := path[i].(*ast.FuncDecl); ok {
+				encl = fd
+			}
+		}
+		if encl == nil {
+			return nil, nil, fmt.Errorf("method value outside a function at %s", where)
+		}
+		writes := 0
+		ast.Inspect(encl, func(n ast.Node) bool {
+			switch e := n.(type) {
+			case *ast.AssignStmt:
+				for _, l := range e.Lhs {
+					if li, ok := unparen(l).(*ast.Ident); ok && (info.Uses[li] == types.Object(robj) || info.Defs[li] == types.Object(robj)) {
+						writes++
+					}
+				}
+			case *ast.IncDecStmt:
+				if li, ok := unparen(e.X).(*ast.Ident); ok && info.Uses[li] == types.Object(robj) {
+					writes += 2
+				}
+			case *ast.UnaryExpr:
+				if li, ok := unparen(e.X).(*ast.Ident); ok && e.Op == token.AND && info.Uses[li] == types.Object(robj) {
+					writes += 2
+				}
+			case *ast.RangeStmt:
+				for _, l := range []ast.Expr{e.Key, e.Value} {
+					if li, ok := l.(*ast.Ident); ok && (info.Uses[li] == types.Object(robj) || info.Defs[li] == types.Object(robj)) {
+						writes += 2
+					}
+				}
+			}
+			return true
+		})
+		if writes > 1 {
+			return nil, nil, fmt.Errorf("the receiver variable of the method value is re-assigned or has its address taken at %s", where)
+		}
+		use = sel
+		if rn := recvName(x.decl); rn != "" && rn != rid.Name {
+			recvBind = rn + " := " + rid.Name + "; _ = " + rn + "; "
+		}
+	}
+	// the innermost statement (for the one-edit-per-statement bookkeeping)
+	var stmt ast.Stmt
+	for i := len(path) - 1; i >= 0; i-- {
+		if s, ok := path[i].(ast.Stmt); ok {
+			stmt = s
+			break
+		}
+	}
+	if stmt == nil {
+		return nil, nil, fmt.Errorf("used as a value outside a statement at %s", where)
+	}
+	sc, err := newSite(pk, file, use.Pos())
+	if err != nil {
+		return nil, nil, err
+	}
+	// signature
+	var ps []string
+	pi := 0
+	for _, fld := range x.decl.Type.Params.List {
+		names := fld.Names
+		if len(names) == 0 {
+			names = []*ast.Ident{nil}
+		}
+		for _, nm := range names {
+			n := "_"
+			if nm != nil {
+				n = nm.Name
+			}
+			ps = append(ps, n+" "+sc.typeStr(sig.Params().At(pi).Type()))
+			pi++
+		}
+	}
+	var rs []string
+	for i := 0; i < sig.Results().Len(); i++ {
+		rv := sig.Results().At(i)
+		t := sc.typeStr(rv.Type())
+		if rv.Name() != "" {
+			t = rv.Name() + " " + t
+		}
+		rs = append(rs, t)
+	}
+	if sc.err != nil {
+		return nil, nil, sc.err
+	}
+	// body: only names have to mean the same
+	_, hbytes, err := src(fset, x.decl.Pos())
+	if err != nil {
+		return nil, nil, err
+	}
+	htf := fset.File(x.decl.Pos())
+	bstart, bend := htf.Offset(x.decl.Body.Lbrace)+1, htf.Offset(x.decl.Body.Rbrace)
+	var bes []edit
+	var bodyErr error
+	ast.Inspect(x.decl.Body, func(nd ast.Node) bool {
+		e, ok := nd.(*ast.Ident)
+		if !ok || bodyErr != nil {
+			return bodyErr == nil
+		}
+		o := info.Uses[e]
+		if o == nil {
+			return true
+		}
+		switch ob := o.(type) {
+		case *types.PkgName:
+			nm := sc.importName(ob.Imported())
+			if sc.err != nil {
+				bodyErr = sc.err
+				return false
+			}
+			if nm != e.Name {
+				bes = append(bes, edit{htf.Offset(e.Pos()) - bstart, htf.Offset(e.End()) - bstart, nm})
+			}
+		default:
+			if o.Parent() == pk.Types.Scope() || o.Parent() == types.Universe {
+				if lookupAt(sc.scope, e.Name, use.Pos()) != o {
+					bodyErr = fmt.Errorf("%s means something else at %s", e.Name, where)
+					return false
+				}
+			}
+		}
+		return true
+	})
+	if bodyErr != nil {
+		return nil, nil, bodyErr
+	}
+	// parameter names of the literal must not hide the receiver variable it refers to
+	if recvBind == "" && sig.Recv() != nil {
+		rid := unparen(use.(*ast.SelectorExpr).X).(*ast.Ident)
+		for _, p := range ps {
+			if strings.HasPrefix(p, rid.Name+" ") {
+				return nil, nil, fmt.Errorf("a parameter hides the receiver variable at %s", where)
+			}
+		}
+	}
+	body, err := apply(append([]byte(nil), hbytes[bstart:bend]...), bes)
+	if err != nil {
+		return nil, nil, err
+	}
+	lit := "func(" + strings.Join(ps, ", ") + ")"
+	if len(rs) > 0 {
+		lit += " (" + strings.Join(rs, ", ") + ")"
+	}
+	lit += " { " + recvBind + oneLine(body) + " }"
+	cname, _, err := src(fset, use.Pos())
+	if err != nil {
+		return nil, nil, err
+	}
+	ctf := fset.File(use.Pos())
+	eds := map[string][]edit{}
+	eds[cname] = append(eds[cname], edit{ctf.Offset(use.Pos()), ctf.Offset(use.End()), lit + lineDirective(fset, use.End(), nil, 0)})
+	if err := addImports(eds, cname, file, ctf, fset, sc.needImport); err != nil {
+		return nil, nil, err
+	}
+	return &plan{eds: eds, desc: fmt.Sprintf("%s -> function literal at its use as a value (%s:%d)", x.key, relFile(st.dir, where.Filename), where.Line)}, stmt, nil
+}
+
+// site resolves names at the place a helper's text is copied to.
+type site struct {
+	pk         *packages.Package
+	file       *ast.File
+	pos        token.Pos
+	where      token.Position
+	scope      *types.Scope
+	callerImp  map[string]string
+	needImport map[string]string // path -> local name to add to the file
+	err        error
+}
+
+func newSite(pk *packages.Package, file *ast.File, pos token.Pos) (*site, error) {
+	sc := &site{pk: pk, file: file, pos: pos, where: pk.Fset.Position(pos), callerImp: map[string]string{}, needImport: map[string]string{}}
+	sc.scope = pk.Types.Scope().Innermost(pos)
+	if sc.scope == nil {
+		return nil, fmt.Errorf("no scope at %s", sc.where)
+	}
+	for _, is := range file.Imports {
+		var pn *types.PkgName
+		if is.Name != nil {
+			pn, _ = pk.TypesInfo.Defs[is.Name].(*types.PkgName)
+		} else {
+			pn, _ = pk.TypesInfo.Implicits[is].(*types.PkgName)
+		}
+		if pn != nil && pn.Name() != "_" && pn.Name() != "." {
+			sc.callerImp[pn.Imported().Path()] = pn.Name()
+		}
+	}
+	return sc, nil
+}
+
+func (sc *site) importName(p *types.Package) string {
+	if p == sc.pk.Types {
+		return ""
+	}
+	if nm, ok := sc.callerImp[p.Path()]; ok {
+		if o, ok := lookupAt(sc.scope, nm, sc.pos).(*types.PkgName); !ok || o.Imported().Path() != p.Path() {
+			sc.err = fmt.Errorf("import name %s is shadowed at %s", nm, sc.where)
+		}
+		return nm
+	}
+	if nm, ok := sc.needImport[p.Path()]; ok {
+		return nm
+	}
+	nm := p.Name()
+	if lookupAt(sc.scope, nm, sc.pos) != nil {
+		sc.err = fmt.Errorf("cannot import %s as %s into the caller's file at %s", p.Path(), nm, sc.where)
+	}
+	sc.needImport[p.Path()] = nm
+	return nm
+}
+
+// typeStr spells a type at the site; same-package type names must not be shadowed there.
+func (sc *site) typeStr(t types.Type) string {
+	var walk func(t types.Type, depth int)
+	walk = func(t types.Type, depth int) {
+		if depth > 6 {
+			return
+		}
+		switch u := t.(type) {
+		case *types.Named:
+			if o := u.Obj(); o.Pkg() == sc.pk.Types {
+				if lookupAt(sc.scope, o.Name(), sc.pos) != types.Object(o) {
+					sc.err = fmt.Errorf("type %s is shadowed at %s", o.Name(), sc.where)
+				}
+			}
+			for i := 0; i < u.TypeArgs().Len(); i++ {
+				walk(u.TypeArgs().At(i), depth+1)
+			}
+		case *types.Pointer:
+			walk(u.Elem(), depth+1)
+		case *types.Slice:
+			walk(u.Elem(), depth+1)
+		case *types.Array:
+			walk(u.Elem(), depth+1)
+		case *types.Map:
+			walk(u.Key(), depth+1)
+			walk(u.Elem(), depth+1)
+		case *types.Chan:
+			walk(u.Elem(), depth+1)
+		case *types.Signature:
+			for i := 0; i < u.Params().Len(); i++ {
+				walk(u.Params().At(i).Type(), depth+1)
+			}
+			for i := 0; i < u.Results().Len(); i++ {
+				walk(u.Results().At(i).Type(), depth+1)
+			}
+		}
+	}
+	walk(t, 0)
+	return oneLine([]byte(types.TypeString(t, sc.importName)))
 }
 
 // addImports adds the imports the caller's file lacks (on the line of its last import declaration).
